@@ -50,3 +50,4 @@ Check (C01_code_comparator_is_total : forall s a b c,
   /\ interp arms s b a = CompOpp (interp arms s a b)
   /\ (interp arms s a b <> Gt -> interp arms s b c <> Gt -> interp arms s a c <> Gt)).
 Print Assumptions C01_code_comparator_is_total.
+Print Assumptions C01_counting_shortcuts.
